@@ -204,7 +204,9 @@ func (t *Transport) WrapRoundTrip(wrappers ...HttpRoundTripWrapper) *Transport {
 		return t
 	}
 	if t.wrappedRoundTrip == nil {
-		t.httpRoundTripWrappers = wrappers
+		// keep a copy: wrappers may be the caller's own slice (WrapRoundTrip(ws...)),
+		// and Clone rebuilds the chain from this list
+		t.httpRoundTripWrappers = cloneSlice(wrappers)
 		fn := func(req *http.Request) (*http.Response, error) {
 			return t.roundTrip(req)
 		}
@@ -418,7 +420,7 @@ func (t *Transport) SetHTTP2WriteByteTimeout(timeout time.Duration) *Transport {
 
 // SetHTTP2SettingsFrame set the ordered http2 settings frame.
 func (t *Transport) SetHTTP2SettingsFrame(settings ...http2.Setting) *Transport {
-	t.t2.Settings = settings
+	t.t2.Settings = cloneSlice(settings) // not the caller's own slice (SetHTTP2SettingsFrame(s...))
 	return t
 }
 
@@ -437,7 +439,7 @@ func (t *Transport) SetHTTP2HeaderPriority(priority http2.PriorityParam) *Transp
 
 // SetHTTP2PriorityFrames set the ordered http2 priority frames.
 func (t *Transport) SetHTTP2PriorityFrames(frames ...http2.PriorityFrame) *Transport {
-	t.t2.PriorityFrames = frames
+	t.t2.PriorityFrames = cloneSlice(frames) // not the caller's own slice (SetHTTP2PriorityFrames(f...))
 	return t
 }
 
